@@ -971,6 +971,9 @@ class Engine:
             rx, fn_rx = ent[0], ent[1]
             hdr = ent[2] if len(ent) > 2 else None
             if rx.search(callee):
+                if "{name}" in fn_rx:
+                    last = re.sub(r"::<.*$", "", callee).split("::")[-1]
+                    fn_rx = fn_rx.replace("{name}", re.escape(last))
                 hits = [n for n in self.fns if re.search(fn_rx, n) and (hdr is None or hdr in self.fns[n].header)]
                 if len(hits) != 1:
                     raise Unknown(f"inline target for {callee}: {len(hits)} candidates")
